@@ -553,6 +553,31 @@ func verifLoopL2(out *zzverif.Out, line string, stops []string, script []verifEv
 		}
 		return
 	}
+	// "as soon as": generation ends WITH the token that completes the earliest stop / with the EOS token / with the
+	// limit-th token — no token is sampled after the terminating event
+	{
+		want, acc := -1, ""
+		for k, e := range script[:res.consumed] {
+			if e.eos {
+				want = k + 1
+				break
+			}
+			acc += e.piece
+			hit := false
+			for _, st := range stops {
+				if strings.Contains(acc, st) {
+					hit = true
+				}
+			}
+			if hit {
+				want = k + 1
+				break
+			}
+		}
+		if want >= 0 && res.consumed != want {
+			out.L2("sampled-after-end", line, fmt.Sprintf("tokens_sampled=%d terminating_event_is_token=%d", res.consumed, want))
+		}
+	}
 	class := "other"
 	if nOccur > 1 && firstListedAt > earliest {
 		class = "first-listed-not-earliest"
